@@ -58,10 +58,24 @@ def main():
         demo_dir = m.group(1) if m else os.path.dirname(touched[0])
     meta["touched_files"] = touched
     meta["demo_dir"] = demo_dir
-    if not a.no_confirm and demos:
+    rd = os.path.join(sd, "run_demo.sh")
+    if not a.no_confirm and os.path.exists(rd):
+        rc0, out0 = sh(["bash", rd], wt, timeout=1800)
+        sh(["git", "apply", patch], wt)
+        rc1, out1 = sh(["bash", rd], wt, timeout=1800)
+        meta["demo"] = {"script": "run_demo.sh", "clean_tree_rc": rc0, "patched_rc": rc1, "patched_tail": out1[-600:]}
+        print("demo(run_demo.sh): clean rc=%d patched rc=%d" % (rc0, rc1))
+        if not a.no_suite:
+            t0 = time.time()
+            rcs, outs = sh(["go", "test", "-vet=off", "-count=1", "-timeout", "25m", "./..."], wt, timeout=3000)
+            fails = [l for l in outs.splitlines() if l.startswith("FAIL") or l.startswith("--- FAIL")]
+            meta["suite_with_patch"] = {"rc": rcs, "fails": fails[:10], "wall_s": round(time.time() - t0)}
+            print("suite with patch: rc=%d fails=%s" % (rcs, fails[:3]))
+    elif not a.no_confirm and demos:
         placed = []
         for d in demos:
             t = os.path.join(wt, demo_dir, os.path.basename(d))
+            os.makedirs(os.path.dirname(t), exist_ok=True)
             shutil.copy(d, t)
             placed.append(t)
         tests = "|".join(sorted(set(re.findall(r"^func (Test\w+)\(", "\n".join(open(d).read() for d in demos), re.M))))
